@@ -53,6 +53,7 @@ struct RunState {
     std::map<int, char> in_call;             // logical thread -> blocking call it is in
     int finished_jobs = 0;
     long long final_done = -1;
+    bool in_dtor = false;
     std::vector<std::string> viols;
     void viol(const std::string& s) { viols.push_back(s); }
 };
@@ -162,11 +163,9 @@ static void scenario_main() {
     for (const Act& a : sc.main_calls) do_call(a);
     for (int id : ids) S.join(id);
     if (S.aborting()) return;
-    rs->final_done = static_cast<long long>(p->done_.peek());
-    if (rs->final_done != rs->finished_jobs)
-        rs->viol("at the end done()=" + std::to_string(rs->final_done) + " but " + std::to_string(rs->finished_jobs) + " job(s) finished");
     S.note("dtor");
-    p->~ThreadPool();
+    rs->in_dtor = true;
+    p->~ThreadPool();   // the final done() check runs when the last worker was joined (event hook)
     rs->destroyed = true;
     S.note("end");
 }
@@ -234,7 +233,13 @@ static std::string do_run(const std::vector<std::string>& t) {
     S.seed = seed; S.sched = sched; S.stick = static_cast<unsigned>(stick); S.spur = static_cast<unsigned>(spur);
     S.max_steps = maxs;
     S.on_stuck = on_stuck;
-    S.on_event = [](int tid, Op op, const void* obj, long long) {
+    S.on_event = [](int tid, Op op, const void* obj, long long val) {
+        if (op == Op::Join && tid == 0 && rs->in_dtor && val == sc.nworkers) {
+            // inside ~ThreadPool, all workers joined, members still alive
+            rs->final_done = static_cast<long long>(rs->pool->done_.peek());
+            if (rs->final_done != rs->finished_jobs)
+                rs->viol("at the end done()=" + std::to_string(rs->final_done) + " but " + std::to_string(rs->finished_jobs) + " job(s) finished");
+        }
         if (op == Op::NotifyOne && obj == &rs->pool->cv_jobs_) {
             auto it = rs->cur_enq.find(tid);
             if (it != rs->cur_enq.end() && it->second->id < 0) {
